@@ -51,6 +51,20 @@ C01 `sync_preserved` / C03 `op_well_recorded`, spelled out) -/
 theorem remove_reaction_step (y : Sys) (g : Good y.s) (r : Id) (hr : y.s.hasR r = true) : Step y (removeRxn y r) :=
   removeRxn_step y g r hr
 
+/-- `add_reactions([R])` for a reaction new to the model (metabolites of the model, no rule) does what it documents and nothing else -/
+theorem add_reaction_spec (y : Sys) (r : Id) (lb ub : EB) (ps : List (Id × Rat)) :
+    let s' := (addRxn y r lb ub ps).s
+    s'.hasR r = true ∧ s'.lb r = lb ∧ s'.ub r = ub ∧ (∀ m, s'.st r m = stOf ps m) ∧ s'.rule r = none ∧ s'.obj r = 0 ∧
+    (∀ x, x ≠ r → s'.hasR x = y.s.hasR x ∧ s'.lb x = y.s.lb x ∧ s'.ub x = y.s.ub x ∧ s'.rule x = y.s.rule x ∧
+      (∀ m, s'.st x m = y.s.st x m) ∧ (∀ m, s'.mr m x = y.s.mr m x) ∧ (∀ gg, s'.gr gg x = y.s.gr gg x)) ∧
+    s'.hasM = y.s.hasM ∧ s'.hasG = y.s.hasG ∧ s'.gf = y.s.gf ∧ s'.dirMax = y.s.dirMax := addRxn_effect y r lb ub ps
+
+/-- … keeping cross-references and solver consistent (the new reaction gets its two variables with the boxes of its bounds and its column in every
+steady-state row), and taken back exactly by the enclosing context -/
+theorem add_reaction_step (y : Sys) (g : Good y.s) (r : Id) (lb ub : EB) (ps : List (Id × Rat))
+    (hnew : y.s.hasR r = false) (hle : EB.le lb ub = true) (hu : r ∈ y.s.univR) (fr : Fresh y.s r)
+    (hm : ∀ p ∈ ps, y.s.hasM p.1 = true) : Step y (addRxn y r lb ub ps) := addRxn_step y g r lb ub ps hnew hle hu fr hm
+
 
 example : WF demo := demo_good.wf
 
